@@ -8,6 +8,23 @@
 
 namespace sim {
 
+/** Set by the runner: called with +1 / -1 around every traversal of a Document by the harness (dumps, monitors, oracles), so
+ *  that a crash while walking the public members of a document is attributed to the document, not to the harness. */
+extern void (*g_on_traversal)(int delta);
+struct TraversalScope
+{
+    TraversalScope()
+    {
+        if (g_on_traversal)
+            g_on_traversal(+1);
+    }
+    ~TraversalScope()
+    {
+        if (g_on_traversal)
+            g_on_traversal(-1);
+    }
+};
+
 struct DumpOpts
 {
     bool positions{true};    // (path,line,col) of label roots, symbols and diagnostics
@@ -55,7 +72,7 @@ std::string check_c06a(UTAP::Document& doc, const std::string& delivered, bool x
 /** C06 for a block / query parse on an existing Document (plain text handed in with an XPath): every diagnostic *added by the
  *  call* carries exactly that path, a line inside the text and columns inside that line, start not after end. */
 std::string check_c06_block(UTAP::Document& doc, size_t errors_before, size_t warnings_before, const std::string& text,
-                            const std::string& xpath);
+                            const std::string& xpath, uint32_t clock_before, uint32_t clock_after);
 
 struct DiagView
 {
@@ -63,6 +80,7 @@ struct DiagView
     std::string msg, ctx, path;
     unsigned sline, scol, eline, ecol;
     bool unknown;
+    uint32_t abs_start{0}, abs_end{0};  // absolute positions (the process-wide position clock)
 };
 std::vector<DiagView> view_diagnostics(UTAP::Document& doc);
 
